@@ -11,7 +11,7 @@ import lib
 from lib import sx, sxo, call
 
 REAL = ["2025-06-18", "2025-03-26", "2024-11-05"]
-INVENTED = ["2026-01-01", "1999-01-01", "2025-06-17"]
+INVENTED = ["2026-01-01", "1999-01-01", "2025-06-17", "DRAFT-2026-v1"]   # the last one is not date-shaped: a version is any string
 UNIVERSE = REAL + INVENTED
 
 SERVER_INFO = {"name": "peer", "version": "0.1"}
@@ -214,6 +214,63 @@ async def run_client_case(case):
         obs["tracked"] = [info["protocol_version"], bool(info["batching_enabled"]), bool(info["supports_batch_function"])]
     for s in (c2s_s, c2s_r, s2c_s, s2c_r):
         s.close()
+    return obs
+
+
+async def run_wrapper_case(case):
+    """The same handshake through the subprocess-backed entry point stdio_client_with_initialize (scripted child on the
+    anyio.open_process seam): it must propose / accept per the CALLER's list exactly like send_initialize."""
+    import json as _json
+    from fakeproc import FakeProcess, FakeStdin, patched_open_process
+    from chuk_mcp.transports.stdio.stdio_client import stdio_client_with_initialize
+    from chuk_mcp.transports.stdio.parameters import StdioParameters
+    ans = case["answer"]
+    obs = {"first": None, "before": [], "between": [], "after": [], "outcome": None, "tracked": None}
+    state = {"entered": False, "n": 0}
+    proc = FakeProcess()
+
+    class Stdin(FakeStdin):
+        def __init__(self):
+            super().__init__()
+            self.buf = b""
+
+        async def send(self, data):
+            await super().send(data)
+            self.buf += bytes(data)
+            while b"\n" in self.buf:
+                line, self.buf = self.buf.split(b"\n", 1)
+                if line.strip():
+                    on_line(line)
+
+    def on_line(line):
+        from chuk_mcp.protocol.messages.json_rpc_message import parse_message
+        m = parse_message(_json.loads(line))
+        d = describe_written(m)
+        state["n"] += 1
+        if state["n"] == 1:
+            obs["first"] = d
+            msg = build_answer(ans, getattr(m, "id", None))
+            if msg is not None:
+                proc.stdout.feed((_json.dumps(msg.model_dump(exclude_none=True)) + "\n").encode())
+        else:
+            (obs["after"] if state["entered"] else obs["between"]).append(d)
+
+    proc.stdin = Stdin()
+    kwargs = {"supported_versions": None if case["supported"] is None else list(case["supported"]),
+              "preferred_version": case["preferred"], "timeout": case.get("timeout") or 2.0}
+    with patched_open_process(proc):
+        try:
+            async with stdio_client_with_initialize(StdioParameters(command="fake-child", args=[]), **kwargs) as (_r, _w, res):
+                state["entered"] = True
+                pv = getattr(res, "protocolVersion", None)
+                obs["outcome"] = ["ok", pv] if isinstance(pv, str) else ["ok-nonstr", repr(pv)]
+                await anyio.sleep(0.05)
+        except Exception as e:            # noqa: BLE001
+            obs["outcome"] = classify_exception(e)
+    # the child sees a line only when the writer TASK has forwarded it: whether the notification was put on the write stream
+    # before the wrapper yielded cannot be told from the child's side, so "between" and "after" are one bucket here (the
+    # ordering itself is judged on send_initialize directly)
+    obs["between"], obs["after"] = obs["between"] + obs["after"], []
     return obs
 
 
